@@ -12,14 +12,19 @@ package schema
 //@   requires ts != nil
 //@   assigns ts.namedTypes, ts.names
 //@ func (*TypeSystem).Accumulate(typ)
-//@   requires ts != nil && typ != nil
-//@   assigns foreign, ts.names, map(ts.namedTypes)
+//@   requires ts != nil && typ != nil && root(ts) != root(typ)
+//@   assigns foreign, ts.names, cells(ts.names), map(ts.namedTypes), region(typ)
+// _Type records the type system in the type it is called on.
+//@ interface Type._Type(ts)
+//@   assigns region(recv)
 //@ func (*typeBase)._Type(ts)
 //@   requires t != nil
 //@   assigns t.universe
 // SpawnStruct links the fields it is given to the new type: it writes the caller's field slice.
 //@ func SpawnStruct(name, fields, repr) (r)
 //@   assigns cells(fields)
+//@   loop 0 invariant v != nil && fresh(v) && v.fieldsMap != nil && fresh(v.fieldsMap) && 0 - 1 <= rangeindex && rangeindex < len(fields)
+//@   loop 1 invariant 0 - 1 <= rangeindex && rangeindex < len(fields)
 // Every implementation of Type is one of the swept types below.
 //@ interface Type.Name() (r)
 //@   assigns nothing
